@@ -50,6 +50,7 @@ type Heap struct {
 	allowMethodKeys  bool
 	allowChainCreate bool
 	allowUnsetCopy   bool
+	allowPopSelf     bool
 }
 
 // chainIndependent: `T = (S = v)` is only generated when resolving T before or
@@ -336,7 +337,8 @@ type HOp struct {
 // literal JSON text -> jqawk literal text (JSON syntax is valid jqawk syntax for our literals)
 func litText(s string) string { return s }
 
-const heapFuncs = `function setk(o, k, v) { o[k] = v
+const heapFuncs = `function getm(o) { return o.zq_never_there }
+function setk(o, k, v) { o[k] = v
  return 0 }
 function seti(a, i, v) { a[i] = v
  return 0 }
@@ -386,6 +388,13 @@ func (op *HOp) render() string {
 		default:
 			return fmt.Sprintf("print \"R\", [incp(%s)]", op.T.String())
 		}
+	case "ret-member-assign":
+		// assignment to a member of a missing member that a function handed back:
+		// the value returned is null, not a way into the caller's container
+		return fmt.Sprintf("getm(%s).%s = %s", op.T.String(), op.Key, litText(op.Lit))
+	case "pop-into-self":
+		// the element an assignment addresses is removed by its own right-hand side
+		return fmt.Sprintf("%s[%d] = %s.pop()", op.T.String(), op.Idx, op.T.String())
 	case "method":
 		// a length-changing array method through a path
 		if op.Fn == "push" {
@@ -843,6 +852,30 @@ func (h *Heap) apply(op *HOp) (string, error) {
 			}
 			return "[" + fmtNum(n+11) + "]", nil
 		}
+	case "ret-member-assign":
+		// nothing the heap holds changes (the run may also refuse the assignment with a runtime error)
+		v, err := h.readPath(op.T)
+		if err != nil {
+			return "", err
+		}
+		if v.K != 'o' {
+			return "", errUnsupported{"needs an object"}
+		}
+		return "", nil
+	case "pop-into-self":
+		// pop, then the index just vacated is assigned the popped value: the array is what it was
+		if !h.allowPopSelf {
+			return "", errUnsupported{"assignment to the element its right-hand side pops (known finding K12)"}
+		}
+		probe := HOp{Kind: "method", T: op.T, Fn: "pop"}
+		if err := h.methodOK(&probe); err != nil {
+			return "", err
+		}
+		v, _ := h.readPath(op.T)
+		if op.Idx != len(v.Arr.Items)-1 || v.Arr.Items[op.Idx].V.isContainer() {
+			return "", errUnsupported{"index is not the last element"}
+		}
+		return "", nil
 	case "method":
 		if err := h.methodOK(op); err != nil {
 			return "", err
@@ -1153,6 +1186,7 @@ type HeapCase struct {
 	AllowMethodKeys  bool `json:"allow_method_keys,omitempty"`
 	AllowChainCreate bool `json:"allow_chain_create,omitempty"`
 	AllowUnsetCopy   bool `json:"allow_unset_copy,omitempty"`
+	AllowPopSelf     bool `json:"allow_pop_self,omitempty"`
 }
 
 func (c *HeapCase) dumpStmt() string {
@@ -1310,7 +1344,7 @@ func (c *HeapCase) newHeap() (*Heap, bool) {
 	if r.Status != RefClean || len(r.Values) != 1 || r.Values[0].V.Kind != 'o' {
 		return nil, false
 	}
-	h := &Heap{Vars: map[string]*HCell{}, allowAliasedPad: c.AllowAliasedPad, allowMethodKeys: c.AllowMethodKeys, allowChainCreate: c.AllowChainCreate, allowUnsetCopy: c.AllowUnsetCopy}
+	h := &Heap{Vars: map[string]*HCell{}, allowAliasedPad: c.AllowAliasedPad, allowMethodKeys: c.AllowMethodKeys, allowChainCreate: c.AllowChainCreate, allowUnsetCopy: c.AllowUnsetCopy, allowPopSelf: c.AllowPopSelf}
 	h.Names = append(append([]string{}, c.Vars...), "fe", "fk", "$")
 	h.cell("$").V = fromJVal(r.Values[0].V)
 	return h, true
@@ -1396,7 +1430,13 @@ func runHeapCase(c *HeapCase, keep bool) Outcome {
 	o.Shape = strings.Join(ks, ",") + "|" + strconv.Itoa(len(c.Ops)/4)
 	o.Nontrivial = len(c.Ops) >= 2
 	lines := strings.Split(strings.TrimSuffix(out.String(), "\n"), "\n")
+	mayRefuse := len(c.Ops) > 0 && c.Ops[len(c.Ops)-1].Kind == "ret-member-assign"
 	for i, w := range want {
+		if i >= len(lines) && mayRefuse && i == len(want)-1 && kind == "RuntimeError" {
+			// the last operation was refused with a runtime error: nothing was changed
+			o.Probes["assignment_through_returned_null_refused"]++
+			return finish()
+		}
 		if i >= len(lines) {
 			o.Class = "run-stopped"
 			o.Msg = fmt.Sprintf("the run ended (%s: %s) before operation #%d `%s` completed", kind, msg, w.op, opText(c, w.op))
@@ -1613,6 +1653,13 @@ func genHeapCase(t *Tape, maxOps int) *HeapCase {
 		}
 		c.Ops = append(c.Ops, op)
 	}
+	if t.Chance(1, 12) {
+		op := HOp{Kind: "ret-member-assign", T: genHeapPath(t, h, c.Vars, false), Key: heapKeys[t.Draw(len(heapKeys))], Lit: heapScalarLits[t.Draw(len(heapScalarLits))]}
+		if h.dryRun(&op) == nil {
+			c.Ops = append(c.Ops, op)
+			return c
+		}
+	}
 	if t.Chance(1, 3) {
 		// further passes of the same statements over a fresh document; kept only
 		// when every operation stays inside the model's domain in every pass
@@ -1717,6 +1764,15 @@ func (h *Heap) dryRun(op *HOp) error {
 		return h.methodOK(op)
 	case "self-chain":
 		return h.selfChainOK(op)
+	case "ret-member-assign":
+		v, err := h.readPath(op.T)
+		if err != nil {
+			return err
+		}
+		if v.K != 'o' {
+			return errUnsupported{"needs an object"}
+		}
+		return nil
 	case "assign-lit":
 		return h.prevalidateWrite(op.T)
 	case "assign-path":
